@@ -442,6 +442,35 @@ func rulesC17(w *World, r *Report) {
 		} else {
 			r.OK("C17.R4", key, w.pos(h.Pos()), "stateless: writes only per-request and freshly allocated memory")
 		}
+		// state of the whole process is shared by all requests too: no module function a handler reaches changes the
+		// working directory, the environment, the umask or a package-level default of the standard library
+		{
+			bad := ""
+			var scope []*ssa.Function
+			for g := range moduleReachable(w, []*ssa.Function{h}, nil) {
+				scope = append(scope, g)
+			}
+			sort.Slice(scope, func(i, j int) bool { return funcName(scope[i]) < funcName(scope[j]) })
+			for _, g := range scope {
+				for _, c := range callsIn(g) {
+					sc := c.Common().StaticCallee()
+					if sc == nil || sc.Pkg == nil {
+						continue
+					}
+					pth, nm := sc.Pkg.Pkg.Path(), sc.Name()
+					switch {
+					case pth == "os" && (nm == "Chdir" || nm == "Setenv" || nm == "Unsetenv" || nm == "Clearenv"),
+						pth == "syscall" && (nm == "Chdir" || nm == "Umask" || nm == "Setenv" || nm == "Chroot"),
+						pth == "log" && (nm == "SetOutput" || nm == "SetFlags" || nm == "SetPrefix") && sc.Signature.Recv() == nil,
+						pth == "time" && nm == "LoadLocation" && false:
+						if bad == "" {
+							bad = pth + "." + nm + " at " + w.instrPos(c)
+						}
+					}
+				}
+			}
+			r.Check(bad == "", "C17.R4", key+":process-state", w.pos(h.Pos()), fmt.Sprintf("%d functions reachable, none changes process-wide state", len(scope)), "the handler reaches "+bad+": the working directory (environment, umask) belongs to every request being served, so a request that overlaps this one resolves its paths somewhere else")
+		}
 		// a field of the shared *app handed by address to code outside the module (a cache, a pool, a singleflight
 		// group, a mutex-protected map): state that outlives the request, whatever the callee does with it
 		if h.Signature.Recv() != nil {
